@@ -51,7 +51,7 @@ func (c14) Mandatory(tier string) []string {
 		}
 	}
 	return append(m, "control-position:first", "control-position:middle-or-last", "control-name:./control", "control-name:control", "extra-members", "via:Load", "via:LoadFile",
-		"reject:version-1.0", "reject:version-3.0", "reject:version-0.93", "reject:no-debian-binary", "reject:no-control", "reject:no-data", "data:symlink", "data:dir", "data:empty-file", "repeat-loads-agree", "two-packages-open", "control:after-large-md5sums", "control:straddles-32KiB")
+		"reject:version-1.0", "reject:version-3.0", "reject:version-0.93", "reject:no-debian-binary", "reject:no-control", "reject:no-data", "data:symlink", "data:dir", "data:empty-file", "repeat-loads-agree", "two-packages-open", "control:after-large-md5sums", "control:straddles-32KiB", "member-mtime>=2^31", "xz-dict-limit-lowered-and-restored")
 }
 
 func codecName(e string) string {
@@ -96,6 +96,9 @@ func genDebModelX(r *core.Rand, cext, dext string, straddle bool) (debModel, *c1
 			{Name: "./control", Type: tar.TypeReg, Data: []byte(m.ControlText), Mode: 0o644}}
 	}
 	m.DataFiles = genDataFiles(r, 256<<10)
+	if r.Chance(1, 3) { // packages stamped after January 2038
+		m.Timestamp = int64(r.Pick3(1<<31, 4102444800, 99999999999))
+	}
 	if r.Chance(1, 3) {
 		m.Extras = append(m.Extras, model.ArMember{Name: "_gpgorigin", Timestamp: 1, Mode: "100644", Data: r.Bytes(r.Range(1, 300))})
 	}
@@ -267,6 +270,25 @@ func (p c14) run(c *core.C, t *core.T, cs c14Case) {
 	}
 	c.Cover("repeat-loads-agree")
 	c.Cover("via:Load")
+	if m.Timestamp >= 1<<31 {
+		c.Cover("member-mtime>=2^31")
+	}
+	if cs.CExt == "xz" || cs.DExt == "xz" {
+		// the process-wide xz dictionary limit: lowering it and then restoring the default (0) must leave loading intact
+		deb.SetXZMaxDict(4096)
+		if d, err := deb.Load(bytes.NewReader(raw), "x.deb"); err == nil {
+			listTar(d.Data)
+			d.Close()
+		}
+		deb.SetXZMaxDict(0)
+		d, err := deb.Load(bytes.NewReader(raw), "x.deb")
+		if err != nil {
+			c.Failf("after SetXZMaxDict(4096) and SetXZMaxDict(0) (restore the default) a well-formed xz package no longer loads: %v", err)
+		} else {
+			c14CheckLoaded(c, "Load after SetXZMaxDict(4096);SetXZMaxDict(0)", d, members, m, doc, wantSrc, true)
+			c.Cover("xz-dict-limit-lowered-and-restored")
+		}
+	}
 	// two packages open at the same time (same codecs): both loaded before either is read
 	{
 		m2, doc2, wantSrc2 := genDebModel(core.NewRand(cs.Seed, "second"), cs.CExt, cs.DExt)
